@@ -29,6 +29,18 @@ FIRST = {
     'C19-m1': 'missed -> C19 draws gamma over 1e-14..1e3 and beta = 0; the curvature part is judged on its own scale',
     'C19-m2': 'missed -> C19.bay re-sets the coefficients (None / Mach route) after a first calc_kA on the same bay',
     'C20-m2': 'missed -> C20.conecyl passes full-size vectors with a load fraction (input must stay untouched)',
+    # round 2
+    'C01-m3': 'missed -> C01 draws integer-typed thicknesses and angles (plyt=1, stack=[0, 45, ...]) with non-integer offsets',
+    'C04-m3': 'missed -> C04.redefine edits ONE quantity at a time (offset only / density only / length only) besides combinations',
+    'C07-m4': 'missed -> C07.assembly_fext re-uses an assembly whose point forces were edited in place after a first calc_fext',
+    'C08-m4': 'missed -> C08.assembly draws per-panel membrane-only (w exactly zero) and bending-only states',
+    'C11-m3': 'missed -> C11 (and C08) hand the amplitude vector over as a strided view / matrix column / list',
+    'C12-m3': 'missed -> C12.assembly re-defines the laminates on the same panel objects and asks calc_kt_kr / get_k0_conn again (this also exposed finding R12a)',
+    'C13-m4': 'missed -> C13.assembly compares get_k0_conn with the independent connection reference of C12 instead of adding it on both sides',
+    'C14-m3': 'missed -> similarity factors span unit systems (s 1e-3..1e3, e 1e-6..1e6, q 1e-12..1e3)',
+    'C15-m4': 'missed -> the C15 re-used object had other side lengths (and its kG0 computed) before',
+    'C16-m3': 'missed -> nearly cylindrical cones (semi-vertex angle 1e-3..0.5 deg) are drawn in every shell check',
+    'C19-m3': 'missed -> C19.panel sweeps the flight condition (Mach, density, speed) on one Panel without touching beta/gamma',
 }
 
 
@@ -38,7 +50,11 @@ def main():
     for sid in sorted(os.listdir(sroot)):
         d = os.path.join(sroot, sid)
         meta = json.load(open(os.path.join(d, 'meta.json')))
-        res = json.load(open(os.path.join(d, 'result.json'))) if os.path.exists(os.path.join(d, 'result.json')) else {}
+        res = {}
+        for fn in ('result.json', 'result_worktree.json'):
+            if os.path.exists(os.path.join(d, fn)):
+                res = json.load(open(os.path.join(d, fn)))
+                break
         suite = json.load(open(os.path.join(d, 'suite.json'))) if os.path.exists(os.path.join(d, 'suite.json')) else {}
         caught = [p for p, r in res.get('checks', {}).items() if r['rc'] == 1]
         first = ''
